@@ -688,7 +688,11 @@ class Problem(  # type: ignore[misc]
 
         :param trajectory_constraint: The expression added to the `Problem`.
         """
-        if constraint.is_and() or constraint.is_forall():
+        if constraint.is_bool_constant():
+            # what a constraint added earlier was simplified to (`Sometime(TRUE)` is stored as `TRUE`):
+            # the compilers add the stored constraints of a problem to the problem they build
+            pass
+        elif constraint.is_and() or constraint.is_forall():
             for arg in constraint.args:
                 assert (
                     arg.is_sometime()
